@@ -72,7 +72,10 @@ def run(desc, metrics=None, mapper=None, eval_in_detail=True, what="map_workload
         m = map_workload_to_arch(spec, print_progress=False, eval_in_detail=eval_in_detail)
     except Exception as e:  # noqa: BLE001
         msg = str(e)
-        if "No pmappings" in msg or "No mappings" in msg or "no valid" in msg.lower():
+        low = msg.lower()
+        # accelforge's ways of saying the mapspace is empty ("No pmappings ...", "Einsum E0 has no pmappings.
+        # This likely means that no pmappings satisfied constraints", "... has no valid reservations")
+        if "no pmappings" in low or "no mappings" in low or "no valid" in low:
             return Run(False, why=msg[:200])
         raise Violation(f"{what} [{d['mapper']}] raised {type(e).__name__}: {msg[:600]}",
                         key=f"mapper-crash:{type(e).__name__}")
